@@ -113,8 +113,9 @@ class Op4Binary:
 
 
 class Op4Ascii:
-    def __init__(self, width=23, digits=16, perline=3, expchar="E"):
+    def __init__(self, width=23, digits=16, perline=3, expchar="E", prefix=True):
         self.w, self.d, self.per, self.x = width, digits, perline, expchar
+        self.pfx = "1P," if prefix else ""
         self.lines = []
 
     def _num(self, v):
@@ -145,7 +146,7 @@ class Op4Ascii:
             nrow = len(M[0]) if M else 0
         wper = 1 if mtype in (1, 3) else 2
         iw = 16 if wide else 8
-        self.lines.append("%*d%*d%8d%8d%-8s1P,%d%s%d.%d%s" % (iw, ncol, iw, -nrow if layout == "bigmat" else nrow, form, mtype, name.upper(), self.per, self.x, self.w, self.d, "|I16" if wide else ""))
+        self.lines.append("%*d%*d%8d%8d%-8s%s%d%s%d.%d%s" % (iw, ncol, iw, -nrow if layout == "bigmat" else nrow, form, mtype, name.upper(), self.pfx, self.per, self.x, self.w, self.d, "|I16" if wide else ""))
         for c, col in enumerate(M):
             strs = strings_of(col)
             if not strs:
